@@ -37,7 +37,8 @@ Inductive err :=
 | EAddr          (* bech32 parse error of the new admin *)
 | EMeta          (* banktypes.Metadata.Validate *)
 | EPanic         (* math.Int overflow / negative coin: a Go panic, recovered by baseapp's runTx *)
-| EBadReq.       (* wasm bindings: wasmvmtypes.InvalidRequest (burn_from_address / metadata base) *)
+| EBadReq        (* wasm bindings: wasmvmtypes.InvalidRequest (burn_from_address / metadata base) *)
+| EAnte.         (* x/paloma VerifyAuthorisedSignatureDecorator refused the transaction *)
 
 Inductive res (A : Type) := Ok (a : A) | Err (e : err).
 Arguments Ok {A} a.
